@@ -59,8 +59,9 @@ def rich_content(c):
 
 
 class Kind:
-    def __init__(self, name, ext, make, same, handler=None, read_args=None):
+    def __init__(self, name, ext, make, same, handler=None, read_args=None, write_args=None):
         self.name, self.ext, self.make, self.same, self.handler, self.read_args = name, ext, make, same, handler, read_args
+        self.write_args = write_args
 
 
 def ds_same(a, b):
@@ -94,7 +95,38 @@ def pickle_handler():
     return FileHandler(reader=reader, writer=writer)
 
 
+def args_handler(bound):
+    """User handler whose writer multiplies by write_args['scale'] and whose reader divides by read_args['divide']: the
+    content only reads back equal if BOTH argument sets reach the user functions.  `bound`: the functions are bound
+    methods of an object (with exactly one extra parameter each) instead of plain functions."""
+    from typhon.files.handlers.common import FileHandler
+
+    def reader(file_info, divide=1):
+        with open(file_info.path, "rb") as f:
+            d = pickle.load(f)
+        return {"payload": d["payload"] // divide}
+
+    def writer(data, file_info, scale=1):
+        with open(file_info.path, "wb") as f:
+            pickle.dump({"payload": data["payload"] * scale}, f)
+
+    class Methods:
+        def read(self, file_info, divide=1):
+            return reader(file_info, divide=divide)
+
+        def write(self, data, file_info, scale=1):
+            return writer(data, file_info, scale=scale)
+    if bound:
+        m = Methods()
+        return FileHandler(reader=m.read, writer=m.write)
+    return FileHandler(reader=reader, writer=writer)
+
+
 KINDS = {
+    "pkl-args": Kind("pkl-args", ".pkl", lambda c: {"payload": c}, lambda a, b: a == b, lambda: args_handler(False),
+                     {"divide": 7}, {"scale": 7}),
+    "pkl-bound": Kind("pkl-bound", ".pkl", lambda c: {"payload": c}, lambda a, b: a == b, lambda: args_handler(True),
+                      {"divide": 5}, {"scale": 5}),
     "pkl": Kind("pkl", ".pkl", lambda c: {"payload": c, "blob": bytes(range(c * 3))}, lambda a, b: a == b, pickle_handler),
     "pkl.zip": Kind("pkl.zip", ".pkl.zip", lambda c: {"payload": c, "blob": bytes(range(c * 3))}, lambda a, b: a == b, pickle_handler),
     "pkl-post": Kind("pkl-post", ".pkl", lambda c: {"payload": c}, lambda a, b: isinstance(b, dict) and b.get("post_read") is True and b.get("data") == a, pickle_handler),
@@ -120,6 +152,8 @@ CONFIGS = [
     ("full", "full", 2, 0, "pkl", "pkl", False),           # day-of-year spelling of start and end across New Year
     ("full", "full", 1, 2, "nc", "nc", False),
     ("full", "noend", 0, 1, "pkl-post", "pkl-post", False),   # post_reader is applied on every read, and only on reads
+    ("full", "full", 0, 1, "pkl-args", "pkl-bound", True),    # read_args / write_args reach plain and bound-method user functions
+    ("full", "noend", 1, 0, "pkl-bound", "pkl-bound", False),
 ]
 
 
@@ -140,6 +174,8 @@ class Side:
             kw["handler"] = self.kind.handler()
         if self.kind.read_args:
             kw["read_args"] = self.kind.read_args
+        if self.kind.write_args:
+            kw["write_args"] = self.kind.write_args
         if self.kind.name == "pkl-post":
             kw["post_reader"] = post_reader
         self.fs = FileSet(self.tmpl, name="side-" + os.path.basename(root), **kw)
